@@ -1354,6 +1354,15 @@ impl<T: Serialize + for<'de> Deserialize<'de> + Clone + PartialEq + Send + Sync 
 
         let header_size = u32::from_le_bytes(size_bytes) as usize;
 
+        // The header cannot be longer than the file; a damaged size field must not
+        // decide how much memory is allocated.
+        let file_len = file.metadata().map(|m| m.len()).unwrap_or(0);
+        if header_size as u64 > file_len.saturating_sub(4) {
+            return Err(P2PError::Storage(StorageError::Database(
+                "Snapshot header size exceeds file size".to_string().into(),
+            )));
+        }
+
         // Read header
         let mut header_data = vec![0u8; header_size];
         file.read_exact(&mut header_data).map_err(|e| {
